@@ -127,7 +127,8 @@ func (store *Store) InsertTransaction(ctx context.Context, tx *ledger.Transactio
 					if err.(postgres.ErrConstraintsFailed).GetConstraint() == "transactions_reference" {
 						return nil, NewErrTransactionReferenceConflict(tx.Reference)
 					}
-					if err.(postgres.ErrConstraintsFailed).GetConstraint() == "transactions_ledger" {
+					// tx.ID is only set by the caller on import; a generated id is not known when the insert fails
+					if err.(postgres.ErrConstraintsFailed).GetConstraint() == "transactions_ledger" && tx.ID != nil {
 						return nil, NewErrConcurrentTransaction(*tx.ID)
 					}
 
